@@ -10,7 +10,7 @@ QUICK = {
                      flags='{{"Deleted"}, {"Seen"}, {"Flagged", "k1"}, {"Recent"}}', modes=("+", "-", "="),
                      silents="{FALSE, TRUE}"))],
     "simulate": [("2mbox", dict(mbox=("inbox", "b"), maxid=5, maxpend=8, sets="SetsMedium", acts=ALL,
-                                 flags='{{"Deleted"}, {"Seen"}, {"Flagged", "k1"}, {"Recent", "Seen"}}',
+                                 flags='{{"Deleted"}, {"Seen"}, {"Flagged", "k1"}, {"Recent", "Seen"}, {"Flagged", "Seen"}, {"k1"}}',
                                  modes=("+", "-", "="), silents="{FALSE, TRUE}"), 50, 24)],
     "random": 70,
     "gen": dict(length=34, weights={"store": 24, "fetch": 10, "fetchbody": 8, "append": 8, "copy": 5, "search": 4,
@@ -26,7 +26,7 @@ THOROUGH = {
                    ("2sess-1mbox-3msgs-depth6", dict(depth=6, maxid=3, flags='{{"Deleted"}, {"Seen", "k1"}}',
                                                      modes=("+", "-", "="), silents="{FALSE, TRUE}"))],
     "simulate": [("2mbox", dict(mbox=("inbox", "b"), maxid=6, maxpend=8, sets="SetsMedium", acts=ALL,
-                                 flags='{{"Deleted"}, {"Seen"}, {"Flagged", "k1"}, {"Recent", "Seen"}, {"Answered", "Draft"}}',
+                                 flags='{{"Deleted"}, {"Seen"}, {"Flagged", "k1"}, {"Recent", "Seen"}, {"Answered", "Draft"}, {"Flagged", "Seen"}, {"k1"}}',
                                  modes=("+", "-", "="), silents="{FALSE, TRUE}"), 800, 32)],
     "random": 800,
     "gen": dict(length=50, weights={"store": 24, "fetch": 10, "fetchbody": 8, "append": 8, "copy": 5, "search": 4,
